@@ -73,6 +73,10 @@ func c05Gen(seed int64, idx int) c05Spec {
 		sp.Expect = "suspicious-or-still-replicating"
 	}
 	sp.Raced = sp.Expect == "all-open" && r.Intn(3) == 0
+	if (idx/len(c05Masters))%9 == 7 && (idx/(9*len(c05Masters)))%2 == 0 {
+		// the quorum edge: count 2 with a list of three - one dead replica closes the gate (quorum 3 - min(1, 2) = 2 alive)
+		sp.N, sp.W, sp.SemiSync, sp.Replicas, sp.List, sp.Casc = 3, 2, true, "one_dead", "full", false
+	}
 	return sp
 }
 
